@@ -10,13 +10,18 @@ def run(tier):
     progs = en.curated(names=None if thorough else QUICK)
     progs += en.curated(names=["deep3", "headless", "orthoroot", "nestedortho"], manual=True)
     progs += en.curated(names=["deep3", "orthoroot"], payload="int")
+    # substitution limit 1: a single approved request fills the per-step history exactly
+    progs += [en.Prog("flat3-lim1", en.st.CURATED["flat3"], sublimit=1), en.Prog("flat3-lim1", en.st.CURATED["flat3"], sublimit=1, manual=True),
+              en.Prog("deep3-lim1", en.st.CURATED["deep3"], sublimit=1, manual=True)]
     args = ["--tier", tier, "--dev", "2" if thorough else "1", "--batch", "2", "--classes", str(en.cls("REQ", "GUARD")),
             "--dev-immediate", "1", "--imm-reduced", "0" if thorough else "1", "--deadline", str(1500 if thorough else 150)]
+    if thorough:
+        args += ["--initial-cancel", "1"]
     if not thorough:
         # the two smallest programs (flat; orthogonal root) once more with two deviations (e.g. a guard-issued follow-up request that is vetoed in its round)
         d2 = en.curated(names=["flat3"]) + [en.Prog("tinyortho", "O(C(l,l),l)"), en.Prog("tinyortho2", "C(O(l,l),l)")]
         for p in d2:
-            p.args = ["--dev", "2"]
+            p.args = ["--dev", "2", "--initial-cancel", "1"]
             p.label += "/dev2"
         progs += d2
     if thorough:
